@@ -753,6 +753,16 @@ pub fn gen_trace(seed: u64, tier: Tier) -> RecorderTrace {
             labels.push("SOCKET-IN-TREE".into());
         }
     }
+    // a link to a regular file that does not report its size (procfs: st_size 0, the bytes are there all the
+    // same): "the standard digest of the file's bytes", whatever stat says (own stream: other draws stay)
+    {
+        let mut pr = Rng::stream(seed, "procfs-link");
+        if pr.chance(1, 12) && std::fs::metadata("/proc/version").map(|m| m.is_file() && m.len() == 0).unwrap_or(false) {
+            let d = pr.pick(&dirs).clone();
+            tree.push(TreeOp::Link { path: format!("{}/kernel-version", d), target: "/proc/version".into(), absolute: false });
+            labels.push("LINK-TO-SIZELESS-FILE".into());
+        }
+    }
     // path arguments
     let mut paths: Vec<String> = match r.weighted(&[30, 25, 15, 10, 10, 10, if links.is_empty() { 0 } else { 12 }]) {
         6 => {
